@@ -65,6 +65,14 @@ func (c *conn) receiveOpen(msg pmpx.Message) status.Status {
 	workerPool.Run(h)
 
 	c.maybeChannelsReached()
+
+	// The connection can close its channels concurrently (the send loop failed),
+	// then this channel was not seen by closeChannels and must be closed here.
+	if c.channelsClosed.Load() {
+		if ch1, ok := c.channels.Delete(id); ok {
+			ch1.free()
+		}
+	}
 	return status.OK
 }
 
